@@ -55,6 +55,8 @@ def make_states(r):
     states = {}
     # the block names of some files contain a colon (`f0b:3`): a reference is split at its *first* colon, file before, name after
     prefixes = [("f%db:" if r.random() < 0.2 else "f%db") % fi for fi in range(nfiles)]
+    if nfiles >= 2 and r.random() < 0.2:
+        prefixes = ["cb"] * nfiles        # the same block names in every file: identical `:name` references mean different blocks
     for fi, (path, suffix) in enumerate(paths):
         def affects_fn(idx, fi=fi):
             if r.random() > 0.5:
@@ -70,7 +72,10 @@ def make_states(r):
                 elif fj == fi and r.random() < 0.7:
                     refs.append(":" + name)
                 else:
-                    refs.append("%s:%s" % (paths[fj][0], name))
+                    fp = paths[fj][0]
+                    if "/" in fp and r.random() < 0.1:
+                        fp = fp.replace("/", r.choice(["//", "/./"]), 1)       # same file, written with a doubled separator or a `.` component
+                    refs.append("%s:%s" % (fp, name))
             refs = list(dict.fromkeys(refs))       # no duplicate references inside one list
             sep = r.choice([",", ", ", " , "])
             return sep.join(refs)
@@ -161,6 +166,13 @@ def defect_model(bB, groups, fuzz):
     return False
 
 
+def norm_path(f):
+    """File parts are compared as paths: a doubled separator or a `.` component names the same file."""
+    if not f:
+        return f
+    return "/".join(seg for seg in f.split("/") if seg not in ("", "."))
+
+
 def parse_refs(value, own_path):
     out = []
     for ref in value.split(","):
@@ -168,8 +180,7 @@ def parse_refs(value, own_path):
         if ":" not in ref:
             return None
         f, n = ref.split(":", 1)
-        f = f.strip()
-        out.append((f or own_path, n.strip()))
+        out.append((norm_path(f.strip()) or own_path, n.strip()))
     return out
 
 
@@ -459,7 +470,7 @@ def judge_pair(ctx, r, root, base, A, B, renames, deleted, added, desc, first, f
         if d.get("code") != "affects":
             return bad("C01/foreign-diagnostic", "unexpected diagnostic %s" % str(d)[:200]), None, None, None
         data = d.get("data") or {}
-        got.append((f, (d.get("range") or {}).get("start", {}).get("line"), data.get("affected_block_file_path"), data.get("affected_block_name")))
+        got.append((f, (d.get("range") or {}).get("start", {}).get("line"), norm_path(data.get("affected_block_file_path")), data.get("affected_block_name")))
     got.sort(key=str)
     judged_affects = True
     if len(dc_rel) > 6:
